@@ -3,7 +3,7 @@
 import json, subprocess
 
 HOOK_COMMITS = ["c13a16c", "6375c04", "8c58cb6"]
-FIX_COMMITS = ["5745400", "ae98e56", "dcffde2", "7418ea5", "a157fe0", "efb55bc", "6ce14e1", "c329518"]
+FIX_COMMITS = ["5745400", "ae98e56", "dcffde2", "7418ea5", "a157fe0", "efb55bc", "6ce14e1", "c329518", "5bc11fb"]
 
 WIRE_NOTE = ("Trusted: the simulator itself (executor, pipe, model, oracle); AsyncTransport implementations are "
              "reliable and ordered; value codec/converter for payload equality; broker built with features "
